@@ -382,7 +382,9 @@ class TheCheck(Check):
         for ln in ([1, 55, 64, 300, 5000, 20000] if quick else [1, 3, 15, 16, 55, 56, 64, 65, 300, 5000, 70000, 300000]):
             x = bytes(rng.randrange(256) for _ in range(ln))
             ops.append("allmt %d %d %s" % (4 if quick else 8, 40 if ln < 5000 else 8, hexs(x)))
-        sts.append(Stream("concurrent-callers", ops, note="pure functions: no hidden shared state"))
+        # implementation vs oracle only: the references decide every digest; the Lean model of MD5 on
+        # 300 KB lists x 8 rotations needs more than the driver's time limit in the thorough tier
+        sts.append(Stream("concurrent-callers", ops, nomodel=True, note="pure functions: no hidden shared state"))
         return sts
 
     # ------------------------------------------------------------ oracle
